@@ -110,7 +110,7 @@ class GhostBoolector:
             if cv is None:
                 # symbolic constant: the library precondition v.bit_length() <= w becomes a proof obligation
                 c = Ctx.cur
-                ok = z3.And(v.z >= -(1 << w), v.z < (1 << w)) if z3.is_int(v.z) else z3.BoolVal(True)
+                ok = z3.And(v.z >= -(1 << w), v.z < (1 << w))
                 if not c.feasible(ok) or c.feasible(z3.Not(ok)):
                     if c.feasible(z3.Not(ok)):
                         c.assume_z3(z3.Not(ok))
